@@ -56,6 +56,11 @@ def step (s : St) (line : String) : IO St := do
     match s.ctx with
     | some c => return { s with res := judgeLine c s.root s.rootId s.res line }
     | none => return s
+  if line.startsWith "rwo " then
+    let s := ensureCtx s
+    match s.ctx with
+    | some c => return { s with res := judgeLine c s.root s.rootId s.res line }
+    | none => return s
   if line.startsWith "v " then
     let s := ensureCtx s
     match s.ctx with
